@@ -11,7 +11,6 @@ import (
 	"go/printer"
 	"go/token"
 	"go/types"
-	"regexp"
 	"strconv"
 	"strings"
 )
@@ -645,24 +644,118 @@ func (x *Exec) specBinary(e *ast.BinaryExpr, env *SpecEnv) TV {
 	panic("spec: operator " + e.Op.String() + " on " + l.T.String() + " in " + exprStr(e))
 }
 
-var selPatRe = regexp.MustCompile(`\(select ([^() ]+|\([^()]*\)|\((?:[^()]|\([^()]*\))*\)) ([a-zA-Z!0-9_.$]+)\)`)
+// sexpr is a parsed S-expression (atom or list).
+type sexpr struct {
+	atom string
+	list []*sexpr
+	src  string
+}
 
-// quantPatterns finds (select A q) subterms for bound variable q to use as triggers.
-func quantPatterns(body, q string) []string {
-	seen := map[string]bool{}
-	var out []string
-	for _, m := range selPatRe.FindAllStringSubmatch(body, -1) {
-		if m[2] != q {
-			continue
+func parseSexpr(s string) *sexpr {
+	pos := 0
+	var parse func() *sexpr
+	parse = func() *sexpr {
+		for pos < len(s) && (s[pos] == ' ' || s[pos] == '\n') {
+			pos++
 		}
-		if strings.Contains(m[1], q+" ") || strings.Contains(m[1], q+")") {
-			continue
+		if pos >= len(s) {
+			return nil
 		}
-		if !seen[m[0]] {
-			seen[m[0]] = true
-			out = append(out, m[0])
+		start := pos
+		if s[pos] == '(' {
+			pos++
+			n := &sexpr{}
+			for {
+				for pos < len(s) && (s[pos] == ' ' || s[pos] == '\n') {
+					pos++
+				}
+				if pos >= len(s) {
+					break
+				}
+				if s[pos] == ')' {
+					pos++
+					break
+				}
+				c := parse()
+				if c == nil {
+					break
+				}
+				n.list = append(n.list, c)
+			}
+			n.src = s[start:pos]
+			return n
+		}
+		if s[pos] == '"' {
+			pos++
+			for pos < len(s) && s[pos] != '"' {
+				pos++
+			}
+			pos++
+			return &sexpr{atom: s[start:pos], src: s[start:pos]}
+		}
+		for pos < len(s) && s[pos] != ' ' && s[pos] != ')' && s[pos] != '(' && s[pos] != '\n' {
+			pos++
+		}
+		return &sexpr{atom: s[start:pos], src: s[start:pos]}
+	}
+	return parse()
+}
+
+func (e *sexpr) mentions(q string) bool {
+	if e.list == nil {
+		return e.atom == q
+	}
+	for _, c := range e.list {
+		if c.mentions(q) {
+			return true
 		}
 	}
+	return false
+}
+
+// quantPatterns finds (select A idx) subterms where idx mentions the bound
+// variable q and A does not: used as instantiation triggers.
+func quantPatterns(body, q string) []string {
+	root := parseSexpr(body)
+	seen := map[string]bool{}
+	var out []string
+	var walk func(e *sexpr, bound map[string]bool)
+	walk = func(e *sexpr, bound map[string]bool) {
+		if e == nil || e.list == nil {
+			return
+		}
+		if len(e.list) >= 3 && (e.list[0].atom == "forall" || e.list[0].atom == "exists") {
+			nb := map[string]bool{}
+			for k := range bound {
+				nb[k] = true
+			}
+			for _, v := range e.list[1].list {
+				if len(v.list) > 0 {
+					nb[v.list[0].atom] = true
+				}
+			}
+			for _, c := range e.list[2:] {
+				walk(c, nb)
+			}
+			return
+		}
+		if len(e.list) == 3 && e.list[0].atom == "select" && e.list[2].mentions(q) && !e.list[1].mentions(q) {
+			ok := !e.mentions("ite") && !e.mentions("and") && !e.mentions("or") && !e.mentions("not") && !e.mentions("=")
+			for b := range bound {
+				if e.mentions(b) {
+					ok = false
+				}
+			}
+			if ok && !seen[e.src] && len(out) < 6 {
+				seen[e.src] = true
+				out = append(out, e.src)
+			}
+		}
+		for _, c := range e.list {
+			walk(c, bound)
+		}
+	}
+	walk(root, map[string]bool{})
 	return out
 }
 
@@ -1025,6 +1118,16 @@ func (x *Exec) specLockClass(e ast.Expr, env *SpecEnv) string {
 func (x *Exec) specClosed(e ast.Expr, env *SpecEnv) Term {
 	se, ok := unparen(e).(*ast.SelectorExpr)
 	if ok {
+		if id, isID := se.X.(*ast.Ident); isID {
+			if _, isVar := env.vars[id.Name]; !isVar {
+				if _, isLocal := x.lookupLocal(id.Name, env); !isLocal {
+					k := id.Name + "." + se.Sel.Name
+					if a := x.prog.Contracts.Chans[k]; a != nil && a.ExtClose {
+						return x.getHeap(env.st, x.xclosedKey(k)).(Term)
+					}
+				}
+			}
+		}
 		base := x.specValue(se.X, env)
 		if base.T != nil {
 			_, idx, _ := types.LookupFieldOrMethod(base.T, true, x.pkg.Types, se.Sel.Name)
